@@ -37,6 +37,7 @@ def exact_replay(ctx, T):
 
 def relation_traces(ctx, T):
     recs = []
+    skipped = [0]
     for label, mk, xs, _bps in tc.catalogue(T):
         t = mk()
         nset = len(recs)
@@ -55,13 +56,27 @@ def relation_traces(ctx, T):
         except Exception as e:
             ctx.violation("%s:exception" % label.split("(")[0], "%s raised %r" % (label, e), {"transform": label})
             continue
-        for kind, a, b in (("x", xs, xb), ("y", ys, yb)):
+        trips = [("x", label, xs, xb), ("y", label, ys, yb)]
+        # the same points handed over in another container / shape / memory order: the round trip is a property of the values
+        style = nset // 2
+        arg = tc.present(xs, style)
+        try:
+            xb2 = tc.quiet(t.backward, tc.quiet(t.forward, arg))
+            a2, b2 = tc.flat(arg), tc.flat(xb2)
+            if len(a2) != len(b2):
+                ctx.violation("%s:container-shape" % label.split("(")[0], "%d values in, %d values back (%s input)" %
+                              (len(a2), len(b2), tc.PRESENTATIONS[style % len(tc.PRESENTATIONS)]), {"transform": label})
+            else:
+                trips.append(("x", label + "@" + tc.PRESENTATIONS[style % len(tc.PRESENTATIONS)], a2, b2))
+        except tc.LAYOUT_ERRORS:
+            skipped[0] += 1          # container not accepted by this transform: not an input of the property
+        for kind, lab, a, b in trips:
             ma, mb = [tc.mant(v) for v in a], [tc.mant(v) for v in b]
             bad = any(v is None for v in ma + mb)
-            recs.append({"kind": "rt", "label": label, "dir": kind, "bad": bad,
+            recs.append({"kind": "rt", "label": lab, "dir": kind, "bad": bad,
                          "x": [v or [0, 0] for v in ma], "xb": [v or [0, 0] for v in mb],
                          "points": {"in": [float(v) for v in a[:40]], "out": [float(v) for v in b[:40]]}})
-            ctx.count({"t": label, "d": kind}, True)
+            ctx.count({"t": lab, "d": kind}, True)
     # Softmax: rows with positive entries summing below 1
     sm = T.Softmax()
     rows = tc.softmax_rows()
@@ -73,6 +88,28 @@ def relation_traces(ctx, T):
         recs.append({"kind": "rt", "label": "Softmax", "dir": kind, "bad": any(v is None for v in ma + mb),
                      "x": [v or [0, 0] for v in ma], "xb": [v or [0, 0] for v in mb],
                      "points": {"in": [float(v) for v in a[:30]], "out": [float(v) for v in b[:30]]}})
+    # Softmax on other admissible shapes / memory orders: one column, one row, Fortran order, transposed view
+    rng = np.random.default_rng(5)
+    shapes = {"(n,1)": rows[:, :1].copy(), "(1,n)": (rows[:1] * 0 + np.array([[0.1, 0.2, 0.3]])),
+              "fortran(n,3)": np.asfortranarray(rows), "transposed(n,3)": np.ascontiguousarray(rows.T).T,
+              "(n,2)": rows[:, :2].copy(), "(n,6)": np.hstack([rows, rows]) / 2.5}
+    for name, arr in shapes.items():
+        try:
+            y = tc.quiet(sm.forward, arr.copy(order="K"))
+            xb = tc.quiet(sm.backward, y)
+            yb = tc.quiet(sm.forward, tc.quiet(sm.backward, np.array(y)))
+        except Exception as e:
+            ctx.violation("Softmax:exception", "%r for rows of shape %s" % (e, name), {"shape": name})
+            continue
+        for kind, a, b in (("x", tc.flat(arr), tc.flat(xb)), ("y", tc.flat(y), tc.flat(yb))):
+            if len(a) != len(b):
+                ctx.violation("Softmax:container-shape", "%d values in, %d values back (rows %s)" % (len(a), len(b), name), {"shape": name})
+                continue
+            ma, mb = [tc.mant(v) for v in a], [tc.mant(v) for v in b]
+            recs.append({"kind": "rt", "label": "Softmax@" + name, "dir": kind, "bad": any(v is None for v in ma + mb),
+                         "x": [v or [0, 0] for v in ma], "xb": [v or [0, 0] for v in mb],
+                         "points": {"in": [float(v) for v in a[:30]], "out": [float(v) for v in b[:30]]}})
+    ctx.part("containers", presentations=tc.PRESENTATIONS, not_accepted=skipped[0])
     nrej, _ = tc.validate(ctx, recs, "C01")
     ctx.traces += len(recs)
     ctx.evaluations += sum(len(r["x"]) for r in recs)
